@@ -349,8 +349,10 @@ class Env(gpp.UGenParameter, gpp.NodeParameter):
             raise ValueError('levels and times must have same length')
         levels = levels[:]  # Ensures internal state.
         levels.insert(0, levels[0])
+        if release_level is not None:
+            release_level = release_level - 1
         return Env(
-            levels, times, 'step', release_level - 1, loop_level, offset)
+            levels, times, 'step', release_level, loop_level, offset)
 
     @classmethod
     def cutoff(cls, release_time=0.1, level=1.0, curve='lin'):
